@@ -418,6 +418,16 @@ func checkMain(a []string) {
 				} else {
 					inconclusive = append(inconclusive, fmt.Sprintf("ENCODER-MISMATCH: passing path of %s%v replays natively as %q", c.Harness, c.Args, got))
 				}
+			case id == "C19" && c.viol != nil && !(strings.HasPrefix(got, "race:") || strings.HasPrefix(got, "fail:C19/")):
+				// a write to shared state that neither races nor changes a concurrent result under
+				// the race detector (e.g. a properly locked cache) is reported but does not fail the check
+				fmt.Printf("UNCONFIRMED-SHARED-WRITE: %s%v %s; native concurrent run: %s\n", c.Harness, c.Args, c.viol.Detail, got)
+			case id == "C19" && c.viol != nil:
+				validated++
+				path := writeReplayFile(id, c)
+				nViolations++
+				violLines = append(violLines, fmt.Sprintf("VIOLATION property=%s replay=%s", id, path))
+				fmt.Printf("  harness %s%v: %s\n  native concurrent run under the race detector: %s\n", c.Harness, c.Args, c.viol.AssertID, got)
 			case matches(c.Expect, got):
 				validated++
 				path := writeReplayFile(id, c)
@@ -590,7 +600,7 @@ func nativeReplay(id string, cases []*replayCase) []string {
 		file := filepath.Join(dir, fmt.Sprintf("replay-batch-%s-%d.json", id, os.Getpid()))
 		b, _ := json.Marshal(cases[from:])
 		os.WriteFile(file, b, 0o644)
-		race := os.Getenv("GOSYM_REPLAY_RACE") != ""
+		race := os.Getenv("GOSYM_REPLAY_RACE") != "" || id == "C19"
 		args := []string{"test", "-tags", "verifreplay", "-overlay", ov, "-run", "^TestVReplay$", "-count=1", "-vet=off", "-v", "-timeout", "120s"}
 		if race {
 			args = append(args, "-race")
@@ -614,6 +624,18 @@ func nativeReplay(id string, cases []*replayCase) []string {
 				out[from+i] = m[2]
 				done[i] = true
 			}
+		}
+		if race && strings.Contains(buf.String(), "DATA RACE") {
+			// the race detector fired during this batch: every case of the batch is a candidate;
+			// re-run them one by one to attribute it
+			if len(cases)-from > 1 {
+				for i := from; i < len(cases); i++ {
+					out[i] = nativeReplay(id, cases[i:i+1])[0]
+				}
+				return out
+			}
+			out[from] = "race:" + lastLines(buf.String(), 3)
+			return out
 		}
 		n := len(cases) - from
 		if len(done) == n {
